@@ -35,12 +35,18 @@ def typedef_names(ast):
     return list(dict.fromkeys(e.name for e in ast.ext if isinstance(e, c_ast.Typedef)))
 
 
-def check_includes(hdrs, std, form, workdir, case, deep=True):
-    """form: 'list' | 'str'"""
+NOISY_HEAD = "#define NULL 0\n#define EOF (-2)\n#define BUFSIZ 17\n"
+NOISY_TAIL = "#warning the user's own warning\n"
+
+
+def check_includes(hdrs, std, form, workdir, case, deep=True, noisy=False):
+    """form: 'list' | 'str'.  noisy: the including file makes cpp print
+    warnings (macros the fake headers define again, a #warning directive) while
+    it still succeeds - diagnostics are not part of the preprocessed text."""
     r = root()
     f1 = os.path.join(workdir, "a.c")
     with open(f1, "w") as f:
-        f.write("".join("#include <%s>\n" % h for h in hdrs))
+        f.write((NOISY_HEAD if noisy else "") + "".join("#include <%s>\n" % h for h in hdrs) + (NOISY_TAIL if noisy else ""))
     label = "%s std=%s form=%s" % (",".join(hdrs), std, form)
     if form == "list":
         args = ["-std=" + std, "-nostdinc", "-I" + r]
@@ -70,7 +76,7 @@ def check_includes(hdrs, std, form, workdir, case, deep=True):
     if not deep:
         return names
     argv = ["cpp"] + (list(snapshot) if isinstance(snapshot, list) else [snapshot]) + [f1]
-    txt = subprocess.check_output(argv, universal_newlines=True)
+    txt = subprocess.check_output(argv, universal_newlines=True, stderr=subprocess.DEVNULL)
     hand = c_parser.CParser().parse(txt, f1)
     d1, d2 = dump(ast, True), dump(hand, True)
     if d1 != d2:
@@ -89,7 +95,7 @@ def check_includes(hdrs, std, form, workdir, case, deep=True):
         body = "".join("%s v_%d; %s *f_%d(%s); int s_%d = sizeof(%s);\n" % (n, i, n, i, n, i, n) for i, n in enumerate(names))
         f2 = os.path.join(workdir, "b.c")
         with open(f2, "w") as f:
-            f.write("".join("#include <%s>\n" % h for h in hdrs) + body)
+            f.write((NOISY_HEAD if noisy else "") + "".join("#include <%s>\n" % h for h in hdrs) + (NOISY_TAIL if noisy else "") + body)
         try:
             ast3 = parse_file(f2, use_cpp=True, cpp_args=args)
         except Exception as e:  # noqa: BLE001
@@ -120,6 +126,10 @@ def header_shard(arg):
             try:
                 names = check_includes([h], std, form, d, ("includes", [h], std, form), deep=deep)
                 per_config[(std, form)] = set(names)
+                if deep and (not quick or sum(map(ord, h)) % 6 == 0):
+                    st.evaluations += 1
+                    check_includes([h], std, form, d, ("includes", [h], std, form, True), deep=True, noisy=True)
+                    st.classes["includes_with_cpp_warnings"] += 1
                 if names:
                     st.nontrivial += 1
                 st.notes["typedef_uses_checked"] = st.notes.get("typedef_uses_checked", 0) + 3 * len(names)
@@ -158,7 +168,8 @@ def subset_shard(arg):
         std = c.choice(["c99", "c11", "gnu99", "gnu11"])
         form = "list" if c.chance(0.8) else "str"
         st.evaluations += 1
-        check_includes(chosen, std if form == "list" else "default", form, d, ("includes", chosen, std, form))
+        noisy = c.chance(0.3)
+        check_includes(chosen, std if form == "list" else "default", form, d, ("includes", chosen, std, form, noisy), noisy=noisy)
         if len(chosen) >= 3 and len({os.path.dirname(h) for h in chosen}) >= 2:
             st.nt(tuple(chosen))
         if st.evaluations % 13 == 1:
@@ -187,9 +198,9 @@ def replay(subcheck, case):
         if bad:
             raise CheckFailure(**bad[0])
         return
-    _, hdrs, std, form = case
+    _, hdrs, std, form = case[:4]
     d = tempfile.mkdtemp(prefix="c19r_")
     try:
-        check_includes(list(hdrs), std, form, d, case)
+        check_includes(list(hdrs), std, form, d, case, noisy=bool(case[4]) if len(case) > 4 else False)
     finally:
         shutil.rmtree(d, ignore_errors=True)
